@@ -39,6 +39,8 @@ SPEC = {
     "required_theorems": [
         "Sema.C11.C11_skeleton_with", "Sema.C11.C11_skeleton_commit", "Sema.C11.C11_skeleton_prune", "Sema.C11.C11_skeleton_release",
         "Sema.C11.C11_released",
+        "Sema.C11.C11_deadlock_witness_pinned", "Sema.C11.C11_deadlock_witness_reorder_failing_reader",
+        "Sema.C11.C11_deadlock_witness_reorder_commit", "Sema.C11.C11_mutex_witness_pinned", "Sema.C11.C11_leak_witness_two_fixes",
     ],
     "trusted_base": [
         "Model.lean is hand-written against the lock skeleton of manager.go; the skeleton is regenerated and compared on every run, the behaviour between yield points is compared by forced schedules (T3)",
@@ -62,14 +64,14 @@ def _gen(ctx, tier, seed):
     drv = _driver(ctx)
     lines = []
     info = {}
-    nq = 260 if tier == "quick" else 1500
+    nq = 2500 if tier == "quick" else 6000
     p = subprocess.run([drv, "C11", "gen", "quick", str(seed), VARIANT, str(nq)], capture_output=True, text=True, timeout=600)
     lines += [l for l in p.stdout.splitlines() if "::" in l]
     info["random_walks"] = len(lines)
     # focus workloads: random walks in quick, full transition cover in thorough
     if tier == "quick":
         cfgs = "".join(f"{c} v={VARIANT}\n" for c in FOCUS)
-        p = subprocess.run([drv, "C11", "gen", "walks", str(seed), "12"], input=cfgs, capture_output=True, text=True, timeout=600)
+        p = subprocess.run([drv, "C11", "gen", "walks", str(seed), "40"], input=cfgs, capture_output=True, text=True, timeout=600)
         lines += [l for l in p.stdout.splitlines() if "::" in l]
     else:
         cfgs = "".join(f"{c} v={VARIANT}\n" for c in FOCUS + COVER)
